@@ -1,5 +1,6 @@
 import A2Verif.Model.Hex
 import A2Verif.Model.Nibble
+import A2Verif.Model.Flat
 /-!
 driver family `c08`
 
@@ -7,6 +8,16 @@ codec ops (bytes as hex):
 * `c08 enc44 <1 byte>` → 2 bytes; `c08 dec44 <2 bytes>` → 1 byte
 * `c08 enc62 <256 bytes>` → 343 disk bytes; `c08 dec62 <343 bytes>` → `ok <256 bytes>` | `err invalid-byte` | `err bad-checksum`
 * `c08 enc53 <256 bytes>` → 411 disk bytes; `c08 dec53 <411 bytes>` → likewise
+
+flat image op sequences, starting from the freshly created (all zero) image:
+* `c08 seq do <tracks> <dos33:0|1> <ops>`, `c08 seq po <blocks> <ops>`, `c08 seq d13 <tracks> <ops>`,
+  `c08 seq img <secSize> <cyls> <heads> <sectors> <ops>`,
+  `c08 seq mgdo <tracks> <dos33> <wp:0|1> <ops>`, `c08 seq mgpo <blocks> <wp> <ops>`
+* `<ops>` = `;`-separated: `rb:<kind>:<a>:<b>`, `wb:<kind>:<a>:<b>:<hex>`, `rs:<c>:<h>:<s>`, `ws:<c>:<h>:<s>:<hex>`
+  with `<kind>` ∈ `dos` (track a, sector b), `po` (block a), `d13`, `fat` (first sector a, count b)
+* answer: `;`-separated results `ok:<hex>` / `ok` / `err` / `panic` (the sequence stops at a panic), then
+  `fin:<fnv1a-64 of the image data>`
+The bounds-check flags are those extracted from the current source (`A2Verif.Gen.C08Guards`).
 -/
 namespace A2Verif.Drv.C08
 open A2Verif A2Verif.Hex A2Verif.Model.Nibble
@@ -46,9 +57,137 @@ def handleCodec (toks : List String) : Option String :=
     if bs.length = 411 then some (showDec (dec53 bs)) else none
   | _ => none
 
+section flat
+open A2Verif.Model.Flat A2Verif.Gen
+
+def fnv (bs : List Nat) : Nat :=
+  bs.foldl (fun h b => ((h ^^^ b) * 0x100000001b3) % 18446744073709551616) 0xcbf29ce484222325
+
+inductive Op
+  | rb (a : Block)
+  | wb (a : Block) (d : List Nat)
+  | rs (c h s : Nat)
+  | ws (c h s : Nat) (d : List Nat)
+
+def parseBlock (k a b : String) : Option Block := do
+  let x ← a.toNat?
+  let y ← b.toNat?
+  match k with
+  | "dos" => some (.dos x y)
+  | "po" => some (.po x)
+  | "d13" => some (.d13 x y)
+  | "fat" => some (.fat x y)
+  | _ => none
+
+def parseOp (s : String) : Option Op :=
+  match s.splitOn ":" with
+  | ["rb", k, a, b] => do some (.rb (← parseBlock k a b))
+  | ["wb", k, a, b, h] => do
+    let d ← ofHex h
+    some (.wb (← parseBlock k a b) d)
+  | ["rs", c, h, s] => do some (.rs (← c.toNat?) (← h.toNat?) (← s.toNat?))
+  | ["ws", c, h, s, x] => do
+    let d ← ofHex x
+    some (.ws (← c.toNat?) (← h.toNat?) (← s.toNat?) d)
+  | _ => none
+
+/-- an image as seen by the op interpreter -/
+structure Iface (σ : Type) where
+  rb : σ → Block → RRes
+  wb : σ → Block → List Nat → WRes σ
+  rs : σ → Nat → Nat → Nat → RRes
+  ws : σ → Nat → Nat → Nat → List Nat → WRes σ
+  data : σ → List Nat
+
+def showR : RRes → String
+  | .ok d => "ok:" ++ toHex d
+  | .err => "err"
+  | .panic => "panic"
+
+def runOps {σ : Type} (f : Iface σ) : σ → List Op → List String → String
+  | st, [], acc => ";".intercalate (acc.reverse ++ ["fin:" ++ toString (fnv (f.data st))])
+  | st, op :: rest, acc =>
+    let w (r : WRes σ) : String :=
+      match r with
+      | .ok st' => runOps f st' rest ("ok" :: acc)
+      | .err st' => runOps f st' rest ("err" :: acc)
+      | .panic => ";".intercalate (("panic" :: acc).reverse)
+    let r (x : RRes) : String :=
+      match x with
+      | .panic => ";".intercalate (("panic" :: acc).reverse)
+      | y => runOps f st rest (showR y :: acc)
+    match op with
+    | .rb a => r (f.rb st a)
+    | .wb a d => w (f.wb st a d)
+    | .rs c h s => r (f.rs st c h s)
+    | .ws c h s d => w (f.ws st c h s d)
+
+def doGuard : Block → Bool
+  | .po _ => C08Guards.doBlockPO
+  | _ => C08Guards.doBlockDO
+
+def ifDO : Iface DOImg :=
+  { rb := fun i a => i.readBlock (doGuard a) a, wb := fun i a d => i.writeBlock (doGuard a) a d,
+    rs := DOImg.readSector, ws := DOImg.writeSector, data := DOImg.data }
+def ifPO : Iface POImg :=
+  { rb := POImg.readBlock C08Guards.poBlock, wb := POImg.writeBlock C08Guards.poBlock,
+    rs := POImg.readSector, ws := POImg.writeSector, data := POImg.data }
+def ifD13 : Iface D13Img :=
+  { rb := D13Img.readBlock C08Guards.d13Block, wb := D13Img.writeBlock C08Guards.d13Block,
+    rs := D13Img.readSector, ws := D13Img.writeSector, data := D13Img.data }
+def ifIMG : Iface IbmImg :=
+  { rb := IbmImg.readBlock C08Guards.imgHead, wb := IbmImg.writeBlock C08Guards.imgHead C08Guards.imgFatAtomic,
+    rs := IbmImg.readSector C08Guards.imgHead, ws := IbmImg.writeSector C08Guards.imgHead, data := IbmImg.data }
+def mgGuard (m : MgImg) (a : Block) : Bool :=
+  match m.raw with
+  | .dos _ => doGuard a
+  | .po _ => C08Guards.poBlock
+def ifMG : Iface MgImg :=
+  { rb := fun m a => m.readBlock (mgGuard m a) a, wb := fun m a d => m.writeBlock (mgGuard m a) a d,
+    rs := MgImg.readSector, ws := MgImg.writeSector,
+    data := fun m => match m.raw with | .dos i => i.data | .po i => i.data }
+
+def flag (s : String) : Option Bool :=
+  match s with
+  | "0" => some false
+  | "1" => some true
+  | _ => none
+
+def handleSeq (toks : List String) : Option String :=
+  let ops (s : String) : Option (List Op) := if s == "-" then some [] else (s.splitOn ";").mapM parseOp
+  match toks with
+  | ["do", t, k, o] => do
+    let t ← t.toNat?
+    let k ← flag k
+    some (runOps ifDO { tracks := t, sectors := 16, dos33 := k, data := List.replicate (t * 16 * 256) 0 } (← ops o) [])
+  | ["po", b, o] => do
+    let b ← b.toNat?
+    some (runOps ifPO { blocks := b, data := List.replicate (b * 512) 0 } (← ops o) [])
+  | ["d13", t, o] => do
+    let t ← t.toNat?
+    some (runOps ifD13 { tracks := t, data := List.replicate (t * 13 * 256) 0 } (← ops o) [])
+  | ["img", z, c, h, s, o] => do
+    let z ← z.toNat?
+    let c ← c.toNat?
+    let h ← h.toNat?
+    let s ← s.toNat?
+    some (runOps ifIMG { secSize := z, cylinders := c, heads := h, sectors := s, data := List.replicate (c * h * s * z) 0 } (← ops o) [])
+  | ["mgdo", t, k, wp, o] => do
+    let t ← t.toNat?
+    let k ← flag k
+    let wp ← flag wp
+    some (runOps ifMG { writeProtected := wp, raw := .dos { tracks := t, sectors := 16, dos33 := k, data := List.replicate (t * 16 * 256) 0 } } (← ops o) [])
+  | ["mgpo", b, wp, o] => do
+    let b ← b.toNat?
+    let wp ← flag wp
+    some (runOps ifMG { writeProtected := wp, raw := .po { blocks := b, data := List.replicate (b * 512) 0 } } (← ops o) [])
+  | _ => none
+
+end flat
+
 def handle (toks : List String) : String :=
-  match handleCodec toks with
-  | some s => s
-  | none => "bad-request"
+  match toks with
+  | "seq" :: rest => (handleSeq rest).getD "bad-request"
+  | _ => (handleCodec toks).getD "bad-request"
 
 end A2Verif.Drv.C08
